@@ -427,6 +427,13 @@ def oracle(case, obs):
         return {"clause": "bracketing-unaborted:" + b, "detail": D[:20]}
     if not _no_abort_state(case, full):
         return {"clause": "abort-state-without-abort", "detail": [full["exits"], full["flags"], full["probe"]]}
+    # exit codes of the run in which nobody aborts (C14's clause, judged by C14's oracle): steps without nested optimization
+    tops = [x for x in full["exits"] if _level(x[0]) == 0]
+    for spec, got in zip(case["steps"], tops):
+        if spec["type"] == "evaluator" or not c14.is_nested(spec["case"]):
+            want = c14.expected(spec["case"])[0]["outcome"]
+            if want[0] == "exit" and got != [spec["sid"], want[1]]:
+                return {"clause": "exit-code-without-abort", "detail": {"step": spec["sid"], "got": got, "expected": want}}
     aborting = k is not None and k < len(D)
     exp = predict(case, D, k)
     if log != exp:
@@ -529,7 +536,7 @@ def scenario_family(tier):
         ("eval-batch-toofew", [_evs(2, [[False, False], [True, False]])]),
         ("two-steps", [_opt([F, G]), _evs()]),
         ("three-steps", [_evs(), _opt([F, _req("F", 1, 0, BAD)]), _opt([FG])]),
-        ("rerun-steps", [_opt([F]), _evs(0, BAD), _opt([F, F1, F], sid=0, maxf=2, rmin=1), _evs(sid=1, rmin=1)]),
+        ("rerun-steps", [_opt([F]), _evs(0, BAD), _opt([F, F1, F], sid=0, maxf=2, rmin=1), _evs(0, BAD, sid=1, rmin=1)]),
         ("nested-2x2", [_opt([F, F1], tree=[_node([F, F1]), _node([F, G])])]),
         ("nested-budget-toofew", [_opt([F, F, F], maxf=2, tree=[_node([F, F, F], maxf=2), _node([F, _req("F", 1, 0, BAD), F], maxf=2),
                                                               _node([F], maxf=2)])]),
@@ -725,9 +732,7 @@ def features(case, obs):
 def shrink(case):
     if len(case["steps"]) > 1:
         for i in range(len(case["steps"])):
-            rest = case["steps"][:i] + case["steps"][i + 1:]
-            if all(s["sid"] <= j for j, s in enumerate(rest)):
-                yield {**case, "steps": _number([{**s, "sid": None} for s in rest]) if all(s["sid"] == j for j, s in enumerate(case["steps"])) else rest}
+            yield {**case, "steps": case["steps"][:i] + case["steps"][i + 1:]}
     if case["k"] is not None and case["k"] > 0:
         yield {**case, "k": case["k"] - 1}
 
@@ -759,8 +764,9 @@ MANIFEST = {
     "level_note": ("Trusted / modelled, not verified: handlers, observers and the evaluator do nothing but raise OptimizationAborted(USER_ABORT) "
                    "at the chosen log index; other exceptions from handlers are outside the property; step bodies come from Model/Step.v "
                    "(C14); nesting depth in the correspondence is 3 (the theorems hold for any program tree); the wf/quiet/non-empty-"
-                   "recipient side conditions of the theorems are evaluated by the checker on every compiled scenario (hypotheses_ok), "
-                   "not proved for the compiler.  BasicOptimizer.run() called twice on one object registers its callbacks twice (each "
+                   "recipient side conditions of the theorems are evaluated by the checker on every compiled scenario (hypotheses_ok) "
+                   "and wf / quiet are proved for everything the compiler produces (C15_compiled_steps_satisfy_hypotheses, "
+                   "C15_every_compiled_scenario).  BasicOptimizer.run() called twice on one object registers its callbacks twice (each "
                    "event reaches them twice): reported, no alarm under the weakest reading, the stream is disabled (BASIC_RERUN).  "
                    "Trusted: Coq kernel + VM, the recording handler plug-in, observers, callbacks and scripted optimizer of "
                    "harness/props/C15.py and C14.py.  All theorems print 'Closed under the global context'."),
